@@ -132,7 +132,7 @@ func wrun(args []string) error {
 		// every combination of the ten flags x {unchunked, chunked-none} on n base workloads
 		g := gen.New(*seed)
 		for k := 0; k < *n; k++ {
-			calls := g.Calls(*size, 120)
+			calls := g.RichCalls(*size, 120)
 			for _, chunked := range []bool{false, true} {
 				for m := 0; m < 1024; m++ {
 					c := gen.FlagCfg(wl.Cfg{Chunked: chunked, ChunkSize: 120, CRC: m%2 == 0 || k%2 == 0}, m)
